@@ -83,7 +83,14 @@ static void evaluate(int fn, const unsigned char *in, size_t n, const char *path
         arm(FNAME[fn], n); int cnt = 0;
         qlisttbl_t *t = qparse_queries(NULL, buf, '=', '&', &cnt);
         if (t) { size_t tot = 0; for (qlisttbl_obj_t *o = t->first; o; o = o->next) tot += strlen(o->name) + o->size; (void)tot; t->free(t); vf_count("results_delivered", 1); } else vf_count("errors_reported", 1);
-        disarm(); hm_free(buf); break; }
+        disarm();
+        /* the same text with other legal separator arguments: ';' lists, and '\0' = "no such separator" */
+        static const char SEPS[4][2] = {{'=', ';'}, {'=', 0}, {0, '&'}, {':', ','}};
+        for (int v = 0; v < 4; v++) { memcpy(buf, in, n); buf[n] = 0; arm(FNAME[fn], n);
+            qlisttbl_t *t2 = qparse_queries(NULL, buf, SEPS[v][0], SEPS[v][1], NULL);
+            if (t2) { size_t tot = 0; for (qlisttbl_obj_t *o = t2->first; o; o = o->next) tot += strlen(o->name) + o->size; (void)tot; t2->free(t2); }
+            disarm(); vf_count("query_parses_with_other_separators", 1); }
+        hm_free(buf); break; }
     case F_INI_STR: {
         char *buf = hm_alloc(n + 1); memcpy(buf, in, n); buf[n] = 0;
         bool div = strstr(buf, "${") && ini_diverges(buf, '=');
@@ -92,7 +99,13 @@ static void evaluate(int fn, const unsigned char *in, size_t n, const char *path
         arm(what, n);
         qlisttbl_t *t = qconfig_parse_str(NULL, buf, '=');
         if (t) { size_t tot = 0; for (qlisttbl_obj_t *o = t->first; o; o = o->next) tot += strlen(o->name) + o->size; (void)tot; t->free(t); vf_count("results_delivered", 1); } else vf_count("errors_reported", 1);
-        disarm(); hm_free(buf); break; }
+        disarm();
+        /* other separator arguments (texts without references only: the termination classifier above is for '=') */
+        if (!strstr(buf, "${")) for (int v = 0; v < 2; v++) { memcpy(buf, in, n); buf[n] = 0; arm(FNAME[fn], n);
+            qlisttbl_t *t2 = qconfig_parse_str(NULL, buf, v ? ':' : 0);
+            if (t2) { size_t tot = 0; for (qlisttbl_obj_t *o = t2->first; o; o = o->next) tot += strlen(o->name) + o->size; (void)tot; t2->free(t2); }
+            disarm(); vf_count("ini_parses_with_other_separators", 1); }
+        hm_free(buf); break; }
     case F_INI_FILE: {
         const char *path = path_override;
         if (!path) { write_mem(in, n); path = MEMPATH; }
